@@ -114,7 +114,7 @@ class MixedInitialize(InitializeMixed):
                 basis = np.zeros(2**self._num_ctrl_qubits)
                 basis[index] = 1
 
-                pure_state += np.kron(np.sqrt(prob) * np.asarray(state_vector), basis)
+                pure_state += np.kron(np.sqrt(float(prob)) * np.asarray(state_vector), basis)
 
             purified_circuit = self._initializer(
                 pure_state,
@@ -124,7 +124,7 @@ class MixedInitialize(InitializeMixed):
         else:
             # Calculates the pure state quantically.
             aux_state = np.concatenate((
-                np.sqrt(self._probabilities),
+                np.sqrt(np.asarray(self._probabilities, dtype=float)),
                 [0] * (2**(self._num_ctrl_qubits) - len(self._probabilities))
             ))
 
